@@ -926,6 +926,11 @@ func (c *Conn) advanceFrame() (int, error) {
 
 	if frameType == continuationFrame || frameType == TextMessage || frameType == BinaryMessage {
 
+		if frameType != continuationFrame {
+			// A new message starts here. Frames of a previous message that the
+			// application abandoned do not count against this message.
+			c.readLength = 0
+		}
 		c.readLength += c.readRemaining
 		// Don't allow readLength to overflow in the presence of a large readRemaining
 		// counter.
